@@ -150,6 +150,50 @@ def run(tier):
                               % ([g[0] for g in got], x["reqs"], x["script"], x["results"]), data=x)
             if replays <= 2:
                 ev.sample({"kind": "scripted-read-replay", "os_answers(units of 32 KiB, E=EINTR)": x["script"], "requests": x["reqs"], "results": x["results"]}, limit=4)
+    # ---- the in-memory implementation of the same interface (istream_memory_create): the same request patterns, buffer = the model's 4 units
+    binm = work + "/replay_stream_asan"
+    if not build.compile_harness(VERIF + "/harness/replay_stream.c", binm, variant="asan"):
+        raise RuntimeError("harness build failed")
+    memjobs = {}
+    for x in recs:
+        memjobs[json.dumps([x["reqs"], x.get("probe", 0)])] = x
+    # files of every length up to the model's 6 units: the requests run into the end of the data at every position
+    mfiles = {}
+    for L in range(0, 7):
+        mfiles[L] = work + "/mem%d.bin" % L
+        open(mfiles[L], "wb").write(data[:L * UNIT])
+
+    def dom(job):
+        x, L = job
+        probe = ["p%d" % (x["probe"] * UNIT)] if x.get("probe") else []
+        rc, o, e = sh([binm, "mem:%d:%s" % (4 * UNIT, mfiles[L])] + probe + [str(n * UNIT) for n in x["reqs"]], timeout=30, env={"ASAN_OPTIONS": "detect_leaks=1"})
+        return x, L, rc, o, e
+    nmem = 0
+    with ThreadPoolExecutor(max_workers=16) as ex:
+        for x, L, rc, o, e in ex.map(dom, [(x, L) for x in memjobs.values() for L in range(0, 7)]):
+            nmem += 1
+            if rc != 0 or b"ERROR: AddressSanitizer" in e or b"LeakSanitizer" in e:
+                rep.violation("memstream-memory", "memory stream, %d units of data, requests %s: %s" % (L, x["reqs"], e.decode(errors="replace")[-200:] or "exit %d" % rc), data={"reqs": x["reqs"], "units": L})
+                continue
+            got = json.loads(o.decode())["results"]
+            if x.get("probe"):
+                (pn, pcrc), got = got[0], got[1:]
+                seen = -1000 - pn
+                need = min(x["probe"], 4, L) * UNIT
+                if (L > 0 and pn > -1000) or seen < need or (need and pcrc != zlib.crc32(data[:need])):
+                    rep.violation("memstream-probe-short", "memory stream over %d units: one get_buffered_data(want=%d units) shows %d bytes, the data has >= %d"
+                                  % (L, x["probe"], seen, need), data={"reqs": x["reqs"], "units": L})
+            pos, okm = 0, True
+            for (n, crc), want in zip(got, x["reqs"]):
+                exp = min(want * UNIT, L * UNIT - pos)
+                if n != exp or (n > 0 and crc != zlib.crc32(data[pos:pos + n])):
+                    okm = False
+                pos += max(n, 0)
+            if not okm or len(got) != len(x["reqs"]):
+                rep.violation("memstream-short-read", "memory stream over %d units delivers %s for requests %s (units of %d bytes)" % (L, [g[0] for g in got], x["reqs"], UNIT),
+                              data={"reqs": x["reqs"], "units": L})
+    ev.set("memory_stream_replays", nmem)
+    replays += nmem
     # ---- tool level --------------------------------------------------------------------------------
     scen = gen.standard_scenarios(work, rng, bs=4096)
     tarb = gen.standard_tars(rng)[0][1]
